@@ -921,6 +921,24 @@ def run(prog, rep, tier):
         if sp_:
             rep.violation(R49, ob_.path + "|signed-seconds", "%s (line %d) applies %s to a FixedOffset's signed second count without taking the magnitude first: negative offsets with a minute part come out wrong (-03:30 as -04:30 or -03:-30)" % (ob_.path.split("::")[-1], sp_[0][0], sp_[0][1]))
 
+    # ------------------------------------------------------------ R4.16 no two same-typed arguments change places on the way to the callee
+    # The options reach the workers and the printers as long positional argument lists in which several
+    # parameters share a type (two FixedOffsets: the zone log lines are read in, the zone datetimes are
+    # printed in).  The compiler cannot tell them apart; the names can: a caller variable named like
+    # parameter B passed for parameter A *and* vice versa is an exchange.  Exact cross-overs only.
+    import argswap as _as_R416
+    R416 = rep.rule("R4.16", "the zone values reach the readers under their own parameter (no exchanged same-typed arguments)")
+    sw_R416 = _as_R416.scan(prog)
+    for x_ in sw_R416:
+        rep.examined(R416, "%s->%s@%s" % (x_["caller"], x_["callee"], x_["line"]), sample=({k_: x_[k_] for k_ in ("caller", "callee", "same_typed_parameter_pairs", "swapped")} if x_["swapped"] or "processing_loop" in x_["callee"] else None))
+        for (i_, j_, a_, b_, t_) in x_["swapped"]:
+            if not ("FixedOffset" in t_ or "DateTime" in t_):
+                continue
+            rep.violation(R416, "%s->%s|%s<->%s" % (x_["caller"], x_["callee"], a_, b_), "%s (line %s) calls %s with its `%s` in the place of parameter `%s` and its `%s` in the place of `%s` (both %s): zone-less timestamps are then read in the zone meant for printing"
+                          % (x_["caller"], x_["line"], x_["callee"].split("::")[-1], b_, a_, a_, b_, t_))
+    if len(sw_R416) < 50:
+        raise CheckerError("R4.16: only %d calls with same-typed parameter pairs found" % len(sw_R416))
+
     return rep.finish(
         "Static check, for all strings of the regular language of each of the table's rows: the byte pre-check chosen for the row (helper byte "
         "classes read from the helpers' MIR, selection read from ezcheck_slice and DTFSSet::has_year4/has_d2) never rejects a string the regex "
